@@ -1,5 +1,6 @@
 import Cx.Driver
 import Cx.DriverCompile
+import Cx.DriverLit
 /-! cxdrv — reads requests from stdin (one per line), writes one answer per line. -/
 
 def tokens (line : String) : List String := (line.trimAscii.toString.splitOn " ").filter (· ≠ "")
@@ -9,7 +10,10 @@ def answer (line : String) : String :=
   let toks := tokens line
   match Cx.DriverCompile.handle? toks with
   | some r => r
-  | none => Cx.Driver.handle line
+  | none =>
+    match Cx.DriverLit.handle? toks with
+    | some r => r
+    | none => Cx.Driver.handle line
 
 partial def loop (h : IO.FS.Stream) (out : IO.FS.Stream) : IO Unit := do
   let line ← h.getLine
